@@ -43,6 +43,7 @@ type c03ident struct {
 	id      int64
 	secret  string
 	expired bool
+	legacy  bool // stored record has no encrypted key (un-migrated client): nobody can prove this identity
 }
 
 func init() {
@@ -237,11 +238,19 @@ func c03Run(w *simrt.World, tier string) {
 			rk := c.Intn(6, "p2.kind")
 			var response, rdesc string
 			valid := false
+			if target.legacy && cc.challenge != "" && c.Intn(2, "p2.emptykey") == 1 {
+				rk = 9
+			}
 			switch rk {
+			case 9:
+				response, rdesc = simnode.HMAC("", cc.challenge), "hmac-under-empty-key"
 			case 0, 1:
 				if cc.challenge != "" {
 					response, rdesc = simnode.HMAC(target.secret, cc.challenge), "correct"
-					valid = true
+					valid = !target.legacy
+					if target.legacy {
+						rdesc = "former-key-of-unmigrated-record"
+					}
 				} else {
 					response, rdesc = simnode.HMAC(target.secret, "deadbeef"), "correct-key-no-challenge"
 				}
@@ -315,7 +324,21 @@ func c03Run(w *simrt.World, tier string) {
 				return
 			}
 		case kind == 8: // environment
-			switch c.Intn(4, "env") {
+			switch c.Intn(5, "env") {
+			case 4:
+				// an un-migrated client record: the encrypted key is gone (only a legacy plaintext field remains)
+				if len(idents) > 0 {
+					id := idents[c.Intn(len(idents), "legacy.ident")]
+					cr := repos.NewClientConfigRepository(node.Repo)
+					if cfg, err := cr.GetConfig(id.id); err == nil && cfg != nil {
+						cfg.SecretKeyEncrypted = ""
+						if cr.UpdateConfig(cfg) == nil {
+							id.legacy = true
+							hist = append(hist, fmt.Sprintf("client %d becomes an un-migrated record (no encrypted key)", id.id))
+							w.Probe("env.legacy-record")
+						}
+					}
+				}
 			case 0:
 				node.BF.BanIP(ipOf(cc.addr), 30*time.Minute, "sim")
 				banned[ipOf(cc.addr)] = true
